@@ -260,6 +260,16 @@ class MatProd(V):
 
 
 @dataclass(frozen=True)
+class LinV(V):
+    """numpy.linspace(start, stop, num[, endpoint]) possibly sliced from the front."""
+    start: object
+    stop: object
+    num: object
+    endpoint: object
+    dropped: int = 0
+
+
+@dataclass(frozen=True)
 class ArrV(V):
     """numpy.array([...]) of known elements."""
     items: tuple
